@@ -64,6 +64,14 @@ def translate(ctx: Ctx) -> Dict[str, Any]:
     return _c20_translate.translate(ctx)
 
 
+def vol(ctx: Ctx, quick: int, thorough: int) -> int:
+    """case volume: the quick tier's escalated search (something broke) uses 6x the quick volume, not the full
+    thorough volume, to stay near the quick budget"""
+    if ctx.tier == 'thorough':
+        return thorough
+    return min(thorough, quick * 6) if ctx.escalated else quick
+
+
 # ---------------------------------------------------------------------------
 # leg A: SOCKS parser, leg B: relay machine (object level)
 
@@ -96,7 +104,7 @@ def _pick_variant(name: str, cases: List[Any], impl: List[Any], models: Dict[str
 def corr_socks(ctx: Ctx, res: CorrResult, hist: Hist) -> None:
     rng = ctx.subrng('socks')
     cases: List[List[bytes]] = [list(c) for c in G.SOCKS_CORPUS]
-    for i in range(ctx.n(1200, 15000)):
+    for i in range(vol(ctx, 1200, 30000)):
         b = G.gen_socks_request(rng) + bytes(rng.randrange(256) for _ in range(rng.choice([0, 0, 0, 3, 9, 40])))
         if rng.random() < 0.35:
             b = G.mutate(rng, b)
@@ -140,7 +148,7 @@ def corr_relay(ctx: Ctx, res: CorrResult, hist: Hist) -> None:
         cases.append(list(toks))
         impl.append(G.run_relay_tokens(toks))
         legal_flags.append(False)
-    for i in range(ctx.n(1500, 20000)):
+    for i in range(vol(ctx, 1500, 40000)):
         obj = G.RelayImpl(path_variant=bool(i % 2))
         legal_only = (i % 4 != 0)
         toks, o = G.gen_relay_seq(rng, obj, rng.randrange(1, 16), legal_only)
@@ -365,7 +373,9 @@ def corr_perm(ctx: Ctx, res: CorrResult, hist: Hist) -> None:
     rng = ctx.subrng('perm')
     configs = all_configs()
     if ctx.tier == 'quick' and not ctx.escalated:
-        configs = rng.sample(configs, 16) + [(False, 'n', 1), (False, 'n', 2), (True, 'n', 0), (False, 'x', 0)]
+        configs = [(False, 'n', i) for i in range(len(PO_SETS))] + \
+                  [(False, 'y', i) for i in rng.sample(range(len(PO_SETS)), 4)] + \
+                  rng.sample([c for c in configs if c[0] or c[1] == 'x'], 8)
     tmp = ctx.tmpdir()
     data = pair.run(run_perm_configs(configs, rng, tmp, ctx.tier != 'quick'), timeout=600)
     lines, expect, cases = [], [], []
@@ -394,7 +404,7 @@ def corr_permitopen(ctx: Ctx, res: CorrResult, hist: Hist) -> None:
     hosts = ['a.example', 'A.b', '::1', '[::1]', '[a]', '[', ']', '', 'a:b', '[a:b', '127.0.0.1', 'x y']
     ports = ['80', '*', '0', '65535', '65536', '-1', '+7', ' 80', '80 ', '08', '', 'x', '8x', '**', '1_0', '٣', '\t9']
     vals = []
-    for _ in range(ctx.n(300, 3000)):
+    for _ in range(vol(ctx, 300, 3000)):
         h = rng.choice(hosts)
         p = rng.choice(ports)
         v = h + ':' + p if rng.random() < 0.9 else rng.choice([h, p, h + p, ':' + p, h + ':'])
@@ -535,9 +545,13 @@ def split_tables(ops: List[str], ev: List[str]) -> List[str]:
     return ev
 
 
-async def run_listener_cases(cases: List[List[str]], base_tmp: str, expected: Optional[List[int]]) -> List[Any]:
+async def run_listener_cases(cases: List[List[str]], base_tmp: str, expected: Optional[List[int]],
+                             stop_after_leaks: int = 10 ** 9) -> List[Any]:
     out = []
+    leaks = 0
     for i, ops in enumerate(cases):
+        if leaks >= stop_after_leaks:
+            break
         tmp = os.path.join(base_tmp, 'l%d' % i)
         os.makedirs(tmp, exist_ok=True)
         err0 = len(pair.LOOP_ERRORS)
@@ -554,6 +568,7 @@ async def run_listener_cases(cases: List[List[str]], base_tmp: str, expected: Op
             await R.wait_until(lambda: count() == (want or 0))
         n = count()
         info['loop_errors'] = [(e.get('message'), type(e.get('exception')).__name__) for e in pair.LOOP_ERRORS[err0:]]
+        leaks += 1 if n else 0
         out.append((ev, n, info))
         # do not let leaked listeners of one case disturb the next: baseline is re-read per case
     return out
@@ -632,7 +647,7 @@ def count_listening(model_line: str) -> int:
 
 def corr_listen(ctx: Ctx, res: CorrResult, hist: Hist) -> None:
     rng = ctx.subrng('listen')
-    cases = [list(c) for c in LISTENER_CORPUS] + [gen_listener_case(rng) for _ in range(ctx.n(20, 250))]
+    cases = [list(c) for c in LISTENER_CORPUS] + [gen_listener_case(rng) for _ in range(vol(ctx, 20, 250))]
     tmp = ctx.tmpdir()
     data = pair.run(run_listener_cases(cases, tmp, None), timeout=900)
     lines: List[str] = []
@@ -763,9 +778,10 @@ def script_features(script: List[str]) -> Dict[str, bool]:
         elif op == 'release':
             win = None
         elif win is not None:
-            if op in ('ae', 'ac'):
+            # (an abortive close of a UNIX socket is seen as EOF by the peer, like a plain close)
+            if op in ('ae', 'ac', 'ar'):
                 win.add('a')
-            if op in ('be', 'bc'):
+            if op in ('be', 'bc', 'br'):
                 win.add('b')
             if win == {'a', 'b'}:
                 feats['eof_crossing'] = True
@@ -890,19 +906,31 @@ def payload_fn(seed: str) -> Any:
     return f
 
 
-async def eval_scenarios(cases: List[Tuple[str, List[str]]], base_tmp: str, label: str) -> List[Any]:
+MAX_NEW_FAILING = 12        # the search stops once this many scripts failed with a signature not yet confirmed twice
+MAX_REPEAT_FAILING = {'quick': 50, 'thorough': 250}    # ... or this many failed with signatures already confirmed
+                                                        # on two other scripts (per tier)
+
+
+async def eval_scenarios(cases: List[Tuple[str, List[str]]], base_tmp: str, label: str,
+                         tier: str = 'quick') -> List[Any]:
     out = []
+    failing_new = failing_repeat = 0
+    confirmed: Dict[str, int] = {}          # signature -> scripts on which it was confirmed by 3 attempts
     for i, (kind, script) in enumerate(cases):
+        if failing_new >= MAX_NEW_FAILING or failing_repeat >= MAX_REPEAT_FAILING[tier]:
+            break
         tries = []
         for attempt in range(3):
             tmp = os.path.join(base_tmp, f'{label}{i}-{attempt}')
             os.makedirs(tmp, exist_ok=True)
-            obs = await R.Scenario(kind, script, tmp, payload_fn(f'{label}{i}')).run()
+            obs = await R.Scenario(kind, script, tmp, payload_fn(f'{label}{i}'), expectations(script)['must']).run()
             probs = judge(kind, script, obs)
             tries.append((probs, obs))
             if not probs:
                 break
-        # a problem counts only if every attempt shows it (guards against a slow wall clock)
+            if all(confirmed.get(sg, 0) >= 2 for sg, _ in probs):
+                break       # nothing new: these signatures were already confirmed on two other scripts
+        # a new problem counts only if every attempt shows it (guards against a slow wall clock)
         if all(t[0] for t in tries):
             sigs = set(s for s, _ in tries[0][0])
             for t in tries[1:]:
@@ -910,6 +938,13 @@ async def eval_scenarios(cases: List[Tuple[str, List[str]]], base_tmp: str, labe
             probs = [(s, d) for s, d in tries[0][0] if s in sigs]
         else:
             probs = []
+        if probs:
+            if len(tries) == 3:
+                failing_new += 1
+                for sg, _ in probs:
+                    confirmed[sg] = confirmed.get(sg, 0) + 1
+            else:
+                failing_repeat += 1
         out.append((kind, script, probs, tries[-1][1]))
     return out
 
@@ -971,6 +1006,68 @@ async def socks_socket_cases(cases: List[List[bytes]]) -> List[Any]:
     return out
 
 
+def socks_reference(data: bytes) -> Optional[Tuple[str, int, bytes]]:
+    """independent reading of RFC 1928 / SOCKS4 / SOCKS4a: a well-formed, acceptable CONNECT request at the start
+    of `data` -> (host, port, bytes after the request); None when the request is malformed, incomplete, offers no
+    'no authentication' method, or carries a field whose acceptance may depend on segmentation (NUL-terminated
+    field longer than 255 bytes)"""
+    import ipaddress
+    if len(data) < 2:
+        return None
+    if data[0] == 5:
+        n = data[1]
+        p = 2 + n
+        if len(data) < p + 4 or 0 not in data[2:p]:
+            return None
+        if data[p:p + 3] != b'\x05\x01\x00':
+            return None
+        at = data[p + 3]
+        p += 4
+        if at == 1 or at == 4:
+            ln = 4 if at == 1 else 16
+            if len(data) < p + ln + 2:
+                return None
+            host = str(ipaddress.ip_address(data[p:p + ln]))
+            p += ln
+        elif at == 3:
+            if len(data) < p + 1:
+                return None
+            ln = data[p]
+            p += 1
+            if len(data) < p + ln + 2:
+                return None
+            try:
+                host = data[p:p + ln].decode('utf-8')
+            except UnicodeDecodeError:
+                return None
+            p += ln
+        else:
+            return None
+        return host, (data[p] << 8) + data[p + 1], data[p + 2:]
+    if data[0] == 4:
+        if data[1] != 1 or len(data) < 9:
+            return None
+        port = (data[2] << 8) + data[3]
+        ip = data[4:8]
+        i = data.find(b'\0', 8)
+        if i < 0 or i - 8 > 255:
+            return None
+        p = i + 1
+        if ip[:3] == b'\0\0\0' and ip[3] != 0:
+            j = data.find(b'\0', p)
+            if j < 0 or j - p > 255:
+                return None
+            try:
+                host = data[p:j].decode('utf-8')
+            except UnicodeDecodeError:
+                return None
+            if host == '':
+                return None          # (the parser then waits for a second string; not a well-formed request)
+            return host, port, data[j + 1:]
+        return str(ipaddress.ip_address(ip)), port, data[p:]
+    return None
+
+
 HOSTILE_HOSTS = ['x' * 64 + '.example', 'a..b', '.', '\x00', 'a\x00b', '-', 'xn--', 'a' * 300, '[::1', '::g', ' ']
 
 
@@ -1028,16 +1125,35 @@ def oracle(ctx: Ctx) -> OracleResult:
     for s in ctx.suspects:
         if isinstance(s, dict) and s.get('op') == 'socks':
             cases.append([bytes.fromhex(c) for c in s['chunks']])
-    for _ in range(ctx.n(3000, 40000)):
+    for _ in range(vol(ctx, 3000, 50000)):
         b = G.gen_socks_request(rng) + bytes(rng.randrange(256) for _ in range(rng.choice([0, 0, 5])))
         if rng.random() < 0.6:
             b = G.mutate(rng, b)
         cases.append(G.chunkings(rng, b, rng.randrange(4)))
     seen: Dict[str, Any] = {}
+    wrong = 0
     for ch in cases:
-        _line, exc, _h = G.run_socks_impl(ch)
+        line, exc, host_arg = G.run_socks_impl(ch)
         res.evaluations += 1
         hist.hit('socks-object:' + ('raises:' + exc if exc else 'ok'))
+        ref = socks_reference(b''.join(ch))
+        if ref is not None:
+            # a well-formed request must be forwarded to exactly the requested destination, whatever the chunking
+            status = line.rpartition(' ; ')[2].split(' ')
+            got = (host_arg, int(status[2]), b'' if status[3] == '-' else bytes.fromhex(status[3])) \
+                if status[0] == 'connect' else None
+            hist.hit('socks-object:well-formed:' + ('served' if got == ref else 'NOT-served'))
+            if got != ref:
+                wrong += 1
+                if wrong <= 3:
+                    res.failures.append(Failure(
+                        signature=('socks-request-not-served' if got is None else
+                                   ('socks-early-data-wrong' if got[:2] == ref[:2] else 'socks-wrong-destination')),
+                        what=f'SOCKS request {b"".join(ch)[:40].hex()}... in {len(ch)} chunk(s) asks for '
+                             f'{ref[0][:30]!r}:{ref[1]} (+{len(ref[2])} bytes of data) but the forwarder '
+                             + (f'opened {got[0][:30]!r}:{got[1]} with {len(got[2])} bytes of early data' if got
+                                else f'ended as {status[0]}'),
+                        replay={'kind': 'socks-ref', 'chunks': [c.hex() for c in ch]}))
         if exc and exc not in seen:
             # shrink: shortest prefix (single chunk) that still raises
             whole = b''.join(ch)
@@ -1048,7 +1164,7 @@ def oracle(ctx: Ctx) -> OracleResult:
                     break
             seen[exc] = small
     sock_cases = [[seen[e]] for e in seen] + [list(c) for c in G.SOCKS_CORPUS[:6]] + \
-        [G.chunkings(rng, G.mutate(rng, G.gen_socks_request(rng)), rng.randrange(4)) for _ in range(ctx.n(20, 200))]
+        [G.chunkings(rng, G.mutate(rng, G.gen_socks_request(rng)), rng.randrange(4)) for _ in range(vol(ctx, 20, 200))]
     sock_out = pair.run(socks_socket_cases(sock_cases), timeout=600)
     loop_seen = set()
     for ch, o in zip(sock_cases, sock_out):
@@ -1073,9 +1189,9 @@ def oracle(ctx: Ctx) -> OracleResult:
     for s in ctx.suspects:
         if isinstance(s, dict) and s.get('op') == 'relay':
             scen += scripts_from_relay_events(s['events'])
-    for i in range(ctx.n(70, 900)):
+    for i in range(vol(ctx, 70, 2000)):
         scen.append((R.Scenario.KINDS[i % len(R.Scenario.KINDS)], gen_script(rng)))
-    data = pair.run(eval_scenarios(scen, tmp, 's'), timeout=3000)
+    data = pair.run(eval_scenarios(scen, tmp, 's', ctx.tier), timeout=3000)
     reported: Dict[str, int] = {}
     for kind, script, probs, obs in data:
         res.evaluations += 1
@@ -1122,7 +1238,8 @@ def oracle(ctx: Ctx) -> OracleResult:
     prng = ctx.subrng('oracle-perm')
     configs = all_configs()
     if ctx.tier == 'quick' and not ctx.escalated:
-        configs = prng.sample(configs, 10) + [(False, 'n', 1), (True, 'y', 0), (False, 'x', 2)]
+        configs = [(False, prng.choice('ny'), i) for i in range(len(PO_SETS))] + \
+                  prng.sample([c for c in configs if c[0] or c[1] == 'x'], 6)
     pdata = pair.run(run_perm_configs(configs, prng, tmp, ctx.tier != 'quick' or ctx.escalated), timeout=900)
     for cfg, obs in pdata:
         nopf, cert, poi = cfg
@@ -1152,8 +1269,8 @@ def oracle(ctx: Ctx) -> OracleResult:
                                             what=f'the application refused but something was created: {desc}', replay=rep))
 
     # (4) listeners are released when their connection ends --------------------------------------------------------
-    lcases = [list(c) for c in LISTENER_CORPUS] + [gen_listener_case(rng) for _ in range(ctx.n(15, 200))]
-    ldata = pair.run(run_listener_cases(lcases, tmp, [0] * len(lcases)), timeout=900)
+    lcases = [list(c) for c in LISTENER_CORPUS] + [gen_listener_case(rng) for _ in range(vol(ctx, 15, 200))]
+    ldata = pair.run(run_listener_cases(lcases, tmp, [0] * len(lcases), stop_after_leaks=8), timeout=900)
     lrep: Dict[str, int] = {}
     for ops, (ev, n, info) in zip(lcases, ldata):
         res.evaluations += 1
@@ -1218,6 +1335,14 @@ def replay(ctx: Ctx, rep: Dict[str, Any]) -> List[Failure]:
         chunks = [bytes.fromhex(c) for c in r['chunks']]
         _l, exc, _h = G.run_socks_impl(chunks)
         return [Failure(f'socks-exception-escapes:{exc}', f'data_received raises {exc}', r)] if exc else []
+    if kind == 'socks-ref':
+        chunks = [bytes.fromhex(c) for c in r['chunks']]
+        line, _exc, host_arg = G.run_socks_impl(chunks)
+        ref = socks_reference(b''.join(chunks))
+        status = line.rpartition(' ; ')[2].split(' ')
+        got = (host_arg, int(status[2]), b'' if status[3] == '-' else bytes.fromhex(status[3])) \
+            if status[0] == 'connect' else None
+        return [Failure('socks-wrong-destination', f'asked {ref}, got {got}', r)] if ref is not None and got != ref else []
     if kind == 'scenario':
         tmp = ctx.tmpdir()
         data = pair.run(eval_scenarios([(r['forward'], r['script'])], tmp, 'r'), timeout=120)
